@@ -27,6 +27,8 @@ static uint8_t *mk(size_t nb) { D = place_end(0, nb); DMAXB = nb; for (size_t i 
 static int s_ls_ascii(void)   { mk(64); DW = 1; int r; LIBCALL(r = _sprintf_s_chk((char *)D, 64, 64, "<%ls>", L"wide text")); return r < 0; }
 static int s_ls_mb(void)      { mk(64); DW = 1; int r; LIBCALL(r = _sprintf_s_chk((char *)D, 64, 64, "<%ls>", L"grüß €")); return r < 0; }
 static int s_ls_invalid(void) { mk(64); DW = 1; static const wchar_t bad[] = {L'a', 0xD800, L'b', 0}; int r; LIBCALL(r = _sprintf_s_chk((char *)D, 64, 64, "<%ls>", bad)); return r < 0; }
+static int s_ls_empty(void)   { mk(64); DW = 1; int r; LIBCALL(r = _snprintf_s_chk((char *)D, 64, 64, "a%lsb", L"")); return r < 0; }            /* converted length 0: the allocation is still made and may fail */
+static int s_ls_prec0(void)   { mk(64); DW = 1; int r; LIBCALL(r = _snprintf_s_chk((char *)D, 64, 64, "a%.0lsb", L"xyz")); return r < 0; }
 static int s_ls_prec(void)    { mk(64); DW = 1; int r; LIBCALL(r = _snprintf_s_chk((char *)D, 64, 64, "%.3ls|", L"abcdef")); return r < 0; }
 static int s_Lf_big(void) { mk(200); DW = 1; int r; LIBCALL(r = _sprintf_s_chk((char *)D, 200, 200, "%Lf tail", 1e90L)); return r < 0; }   /* 90 digits: the heap copy of the libc rendering */
 static int s_Lf_big_end(void) { mk(200); DW = 1; int r; LIBCALL(r = _sprintf_s_chk((char *)D, 200, 200, "x%.3Lf", 1e90L)); return r < 0; }
@@ -62,6 +64,7 @@ static int s_wcsicmp_bad2(void) { D = NULL; DMAXB = 0; int res = 0; errno_t r; w
 
 static const oscn SC[] = {
     {"sprintf_s(%ls ascii)", "%ls copy", s_ls_ascii}, {"sprintf_s(%ls multibyte)", "%ls copy", s_ls_mb}, {"sprintf_s(%ls invalid)", "%ls copy, conversion error exit", s_ls_invalid},
+    {"snprintf_s(%ls of an empty string)", "%ls copy of length 0", s_ls_empty}, {"snprintf_s(%.0ls)", "%ls copy of length 0", s_ls_prec0},
     {"snprintf_s(%.3ls)", "%ls copy", s_ls_prec}, {"sprintf_s(%f of 1e300)", "rendering longer than 64 (double delegated to libc)", s_f_huge}, {"sprintf_s(%Lf+text)", "directive copy", s_Lf}, {"sprintf_s(%Lf of 1e90 +text)", "directive copy + rendering longer than 64", s_Lf_big}, {"sprintf_s(%.3Lf of 1e90)", "rendering longer than 64", s_Lf_big_end}, {"sprintf_s(%Le+text)", "directive copy", s_Le}, {"sprintf_s(%Lg+text)", "directive copy", s_Lg},
     {"sprintf_s(%La+text)", "directive copy", s_La}, {"sprintf_s(%a+text)", "directive copy", s_a}, {"sprintf_s(%Lf %ls %Le)", "three sites in one call", s_fL2},
     {"swprintf_s(no space, dmax>=512)", "no-space probe", s_swprintf_nospc}, {"snwprintf_s(no space, dmax>=512)", "no-space probe", s_snwprintf_nospc},
